@@ -440,6 +440,16 @@ func runOne(work, path string) {
 		c := &CoordCase{}
 		_ = json.Unmarshal(raw, c)
 		gen.Emit(runCoord(c))
+	case "trunc":
+		c := &TruncCase{}
+		_ = json.Unmarshal(raw, c)
+		w, err := newTruncWorld(work, c.Last)
+		if err != nil {
+			panic(err)
+		}
+		defer w.close()
+		runTruncCase(w, c)
+		gen.Emit(c)
 	case "group":
 		c := &GroupCase{}
 		_ = json.Unmarshal(raw, c)
@@ -449,6 +459,25 @@ func runOne(work, path string) {
 	default:
 		fmt.Println("unknown case kind", probe.Kind)
 		os.Exit(2)
+	}
+}
+
+// emitTrunc: the truncation-decision sequences (corpus first) on one shared three-file store
+func emitTrunc(work string, r *gen.Rand, n int) {
+	w, err := newTruncWorld(work, 2*entryFileSize+100)
+	if err != nil {
+		gen.Emit(&TruncCase{Kind: "trunc", Err: "store: " + err.Error()})
+		return
+	}
+	defer w.close()
+	for _, c := range corpusTrunc() {
+		runTruncCase(w, c)
+		gen.Emit(c)
+	}
+	for i := 0; i < n; i++ {
+		c := genTrunc(r.Fork(), w)
+		runTruncCase(w, c)
+		gen.Emit(c)
 	}
 }
 
@@ -481,6 +510,11 @@ func main() {
 		gen.Emit(c)
 		return
 	}
+	if len(os.Args) >= 3 && os.Args[1] == "trunc" {
+		n, _ := strconv.Atoi(os.Args[2])
+		emitTrunc(work, gen.FromEnv(55), n)
+		return
+	}
 	if len(os.Args) < 3 || os.Args[1] != "cases" {
 		fmt.Println("usage: c05 cases <n>")
 		os.Exit(2)
@@ -504,6 +538,7 @@ func main() {
 	for i := 0; i < n/25+1; i++ {
 		gen.Emit(runCoord(genCoord(r.Fork())))
 	}
+	emitTrunc(work, r.Fork(), n/4+1)
 	for i, c := range corpusConflict() {
 		runConflict(work, 200000+i, c)
 		gen.Emit(c)
